@@ -44,6 +44,11 @@ def gen_lines(rng, tier):
         acks = [rng.randrange(2 ** 32) for _ in range(rng.choice([0, 0, 1, 2, 5, 255]))]
         lines.append('ovpnctl 4 %d %s %d %d %s' % (rng.getrandbits(64), ','.join(map(str, acks)) or '-', rng.choice([0, 0, 1, 2 ** 64 - 1, rng.getrandbits(64), rng.getrandbits(64)]), rng.randrange(2 ** 32),
                                                   framegen.rnd_bytes(rng, rng.choice([0, 1, 100])).hex() or '-'))
+        remote = lambda: rng.choice([0, 0, 1, 2 ** 64 - 1, rng.getrandbits(64)])
+        acks2 = [rng.randrange(2 ** 32) for _ in range(rng.choice([0, 1, 3, 255]))]
+        lines.append('ovpnack %d %s %d' % (rng.getrandbits(64), ','.join(map(str, acks2)) or '-', remote()))
+        lines.append('ovpnhrc %d %d' % (rng.getrandbits(64), rng.randrange(2 ** 32)))
+        lines.append('ovpnhrs %d %s %d %d' % (rng.getrandbits(64), ','.join(map(str, acks)) or '-', remote(), rng.randrange(2 ** 32)))
         lines.append('ovpntcp %s' % (framegen.rnd_payload(rng).hex() or '-'))
     return lines
 
@@ -81,8 +86,23 @@ def run(chk):
                 for ty in (14, 13):
                     extra.append('pcotp %d %s' % (ty, o[3:]))
                     extra.append('pcotp %d %s' % (ty, framegen.corrupt(rng, bytes.fromhex(o[3:])).hex()))
-        m2 = common.run_model(extra)
-        for l, m in zip(extra, m2):
+        # OpenVPN: the specification's packets parsed through the packet variant (alone and followed by other bytes): opcode,
+        # session id, acknowledgements, remote session id (present exactly when there are acknowledgements) and body
+        ov = []
+        for l, m in zip(lines, model_out):
+            if l.startswith(('ovpnack', 'ovpnhrc', 'ovpnhrs', 'ovpnctl')) and m.startswith('OK '):
+                ov.append('ovpndec ' + m[3:])
+                if not l.startswith('ovpnctl'):     # a control packet's payload is whatever follows
+                    ov.append('ovpndec ' + m[3:] + 'a1b2c3')
+        for l, m in zip(ov, common.run_model(ov)):
+            i = impl.impl_line(l)
+            if m != i and nv < 10:
+                nv += 1
+                chk.violation('parsing a conformant OpenVPN packet does not recover the encoded values: implementation %s, specification %s' % (i[:120], m[:120]),
+                              {'cmd': l, 'impl': i, 'spec': m}, None, True)
+        extra += ov
+        m2 = common.run_model(extra[:len(extra) - len(ov)])
+        for l, m in zip(extra[:len(extra) - len(ov)], m2):
             i = impl.impl_line(l)
             if i.startswith('WRONGTYPE'):
                 chk.violation('a PDU parsed by %s is returned as %s' % ('COTPConnectionRequest' if ' 14 ' in l else 'COTPConnectionConfirm', i.split(' ')[1]), {'cmd': l, 'impl': i}, None, True)
@@ -112,7 +132,7 @@ def run(chk):
     chk.coverage['distinct_nontrivial'] = len(set(l for l, o in zip(lines, impl_out) if o.startswith('OK')))
     chk.coverage['traces_validated_against_impl'] = len(lines) + len(extra)
     chk.coverage['rule'] = ('TPKT, COTP CR/CC, RDP negotiation request/response (all flag and protocol subsets), MySQL packets (3-byte little-endian '
-                            'length), MySQL SSLRequest in the 4.1 and pre-4.1 layouts (all capability subsets, split flags), OpenVPN control packets '
+                            'length), MySQL SSLRequest in the 4.1 and pre-4.1 layouts (all capability subsets, split flags), OpenVPN control, acknowledgement and hard-reset packets (both directions) '
                             '(ack arrays of 0..255 entries) and the TCP wrapper, PostgreSQL SSLRequest: composed by the implementation and compared '
                             'with the Coq specification; every composed COTP PDU and a corrupted variant parsed by both COTP classes, model vs '
                             'implementation incl. the class of the returned object')
